@@ -29,7 +29,8 @@ def run_task(task):
         init = driver.pycfunction_init
         cfg = {}
         if mode == 'lapack-wrapper':
-            pass
+            from contracts.c import blas_spec
+            ext.update(blas_spec.LOCAL_EXTERNS)
         elif mode == 'blas-wrapper':
             from contracts.c import blas_spec
             ext.update(blas_spec.LOCAL_EXTERNS)
